@@ -889,12 +889,25 @@ func parseBGP4MPMessage(hdr *BGP4MPHeader, isLocal bool, isAddPath bool, data []
 		return nil, fmt.Errorf("not all BGP4MPMessageAS4 bytes available")
 	}
 
-	msg, err := bgp.ParseBGPMessage(rest)
+	msg, err := bgp.ParseBGPMessage(rest, m.marshallingOptions()...)
 	if err != nil {
 		return nil, err
 	}
 	m.BGPMessage = msg
 	return m, nil
+}
+
+// marshallingOptions: in the *_ADDPATH subtypes (RFC 8050 section 3) every
+// NLRI of the carried message has a path identifier, whatever its family.
+func (m *BGP4MPMessage) marshallingOptions() []*bgp.MarshallingOption {
+	if !m.isAddPath {
+		return nil
+	}
+	ap := make(map[bgp.Family]bgp.BGPAddPathMode, len(bgp.AddressFamilyNameMap))
+	for f := range bgp.AddressFamilyNameMap {
+		ap[f] = bgp.BGP_ADD_PATH_BOTH
+	}
+	return []*bgp.MarshallingOption{{AddPath: ap}}
 }
 
 func (m *BGP4MPMessage) Serialize() ([]byte, error) {
@@ -905,7 +918,7 @@ func (m *BGP4MPMessage) Serialize() ([]byte, error) {
 	if m.BGPMessagePayload != nil {
 		return append(buf, m.BGPMessagePayload...), nil
 	}
-	bbuf, err := m.BGPMessage.Serialize()
+	bbuf, err := m.BGPMessage.Serialize(m.marshallingOptions()...)
 	if err != nil {
 		return nil, err
 	}
